@@ -154,6 +154,8 @@ def gen(rng, tier):
         ms = [decorate(rng, mc.gen_wf_mrs(rng, max_nouns=1), charonly=i % 2 == 0) for _ in range(rng.randrange(0, 4))]
         cases.append({"k": "doc", "ms": ms, "p": rng.random() < 0.7, "l": rng.random() < 0.7,
                       "indent": rng.choice([False, True, 2])})
+    for i in range(n // 3):
+        cases.append(gen_indexed(rng))
     for t in TEXTS:
         cases.append({"k": "text", "text": t})
     # malformed token streams
@@ -164,8 +166,74 @@ def gen(rng, tier):
     return cases
 
 
+SEMI_PROPS = {"e": [["TENSE", "tense"], ["MOOD", "mood"], ["PERF", "bool"]],
+              "x": [["PERS", "pers"], ["NUM", "num"], ["IND", "bool"]],
+              "i": [["NUM", "num"]]}
+SEMI_VALUES = {"tense": ["past", "pres", "untensed"], "mood": ["indicative", "subjunctive"], "bool": ["+", "-"],
+               "pers": ["1", "2", "3"], "num": ["sg", "pl"]}
+IDX_CARGS = ["Kim", "the dog", "été", "犬", "a.b-c", "x<y>", "it's", "#1", "back\\slash", "quo\"te", "ends\\"]
+
+
+def gen_indexed(rng):
+    """an MRS for the Indexed codec: full property lists (or none), character spans, SEM-I order"""
+    base = mc.gen_wf_mrs(rng, max_nouns=2, shuffle_vars=rng.random() < 0.3)
+    m = {"top": base["top"], "index": base["index"], "rels": [], "hcons": [list(h) for h in base["hcons"]],
+         "icons": [], "vars": [], "lnk": None, "surface": None}
+    mentioned = [base["index"]]
+    for r in base["rels"]:
+        args = [list(a) for a in r["args"]]
+        for a in args:
+            if a[0] == "CARG":
+                a[1] = rng.choice(IDX_CARGS)
+        if rng.random() < 0.3:
+            rng.shuffle(args)
+        m["rels"].append({"pred": r["pred"], "label": r["label"], "args": args,
+                          "lnk": _lnk(rng, charonly=True), "surface": None})
+        mentioned.extend(a[1] for a in args if a[0] != "CARG")
+    if rng.random() < 0.3 and len(mentioned) > 1:
+        m["icons"].append([rng.choice(mentioned), rng.choice(ICONS_RELS), rng.choice(mentioned)])
+    for v in sorted(set(mentioned)):
+        srt = v.rstrip("0123456789")
+        if srt in SEMI_PROPS and rng.random() < 0.5:
+            m["vars"].append([v, [[k, rng.choice(SEMI_VALUES[t])] for k, t in SEMI_PROPS[srt]]])
+    rng.shuffle(m["vars"])
+    return {"k": "idx", "m": m, "p": rng.random() < 0.7, "l": rng.random() < 0.7,
+            "indent": rng.choice([False, True, 2, None]), "carg_in_semi": rng.random() < 0.5}
+
+
+def make_semi(ds, carg_in_semi):
+    from delphin import semi
+    from delphin.sembase import role_priority
+    variables = {"u": {}, "i": {"parents": ["u"]}, "p": {"parents": ["u"]},
+                 "e": {"parents": ["i"]}, "x": {"parents": ["i", "p"]}, "h": {"parents": ["p"]}}
+    for srt, ps in SEMI_PROPS.items():
+        variables[srt]["properties"] = [list(x) for x in ps]
+    properties = {}
+    for t, vals in SEMI_VALUES.items():
+        properties[t] = {}
+        for v in vals:
+            properties[v] = {"parents": [t]}
+    roles = {}
+    predicates = {}
+    for d in ds:
+        for r in d["rels"]:
+            syn = []
+            for role, val in sorted(r["args"], key=lambda a: role_priority(a[0])):
+                if role == "CARG":
+                    roles[role] = {"value": "string"}
+                    if carg_in_semi:
+                        syn.append({"name": role, "value": "string"})
+                else:
+                    roles[role] = {"value": "u"}
+                    syn.append({"name": role, "value": val.rstrip("0123456789")})
+            predicates.setdefault(r["pred"], {"synopses": []})
+            if {"roles": syn} not in predicates[r["pred"]]["synopses"]:
+                predicates[r["pred"]]["synopses"].append({"roles": syn})
+    return semi.SemI(variables=variables, properties=properties, roles=roles, predicates=predicates)
+
+
 def nontrivial(c):
-    if c["k"] in ("mrs", "mut"):
+    if c["k"] in ("mrs", "mut", "idx"):
         return len(c["m"]["rels"]) >= 2
     if c["k"] == "doc":
         return len(c["ms"]) >= 2
@@ -312,6 +380,8 @@ def observe(c):
         m = build(c["m"])
         toks = mutate(lex(S.encode(m)), c)
         return {"toks": toks, "dec": decode_tokens(toks)}
+    if c["k"] == "idx":
+        return {}
     raise ValueError(c["k"])
 
 
@@ -340,7 +410,7 @@ def project(o, p, l, fmt):
             o["lnk"] = None
     if not p:
         o["vars"] = []
-    o["vars"] = sorted([v, sorted(ps)] for v, ps in o["vars"])
+    o["vars"] = sorted([v, sorted([k, x.lower() if fmt == "indexed" else x] for k, x in ps)] for v, ps in o["vars"])
     return o
 
 
@@ -416,6 +486,8 @@ def oracle(c):
             if r:
                 return r
         return None
+    if c["k"] == "idx":
+        return _oracle_indexed(c)
     if c["k"] == "doc":
         ms = [build(d) for d in c["ms"]]
         for name, mod, fmt in (("simplemrs", simplemrs, "simple"), ("mrx", mrx, "mrx"), ("mrsjson", mrsjson, "json")):
@@ -434,7 +506,22 @@ def oracle(c):
     return None
 
 
+def _oracle_indexed(c):
+    from delphin.codecs import indexedmrs
+    d = c["m"]
+    m = build(d)
+    sm = make_semi([d], c["carg_in_semi"])
+    r = _check_codec("indexedmrs", indexedmrs, "indexed", m, d, c, kw={"semi": sm})
+    return r
+
+
 def known_match(case, failure, known):
+    if (case.get("k") == "idx" and case.get("carg_in_semi") and isinstance(failure, str)
+            and "no valid synopsis" in failure
+            and any(a[0] == "CARG" for r in case["m"]["rels"] for a in r["args"])):
+        for e in known:
+            if e["id"] == "F27":
+                return "F27"
     return None
 
 
@@ -492,7 +579,7 @@ def c_dec(dec):
 def coq_case(c, o):
     if "exc" in o:
         raise ValueError("harness")
-    if "lexerr" in o:
+    if "lexerr" in o or c["k"] == "idx":
         return None
     toks = clist(o["toks"], c_tok)
     dec = app("CDec", toks, c_dec(o["dec"]))
